@@ -16,6 +16,7 @@ import Babylon.BQ.Props
 import Babylon.BQ.Skel
 import Babylon.BQ.Examples
 import Babylon.BQ.TryFailEx
+import Babylon.BQ.PubView
 
 namespace Babylon.Properties.C01
 open Babylon.BQ Babylon.Core Babylon.Gen.BQ
@@ -205,6 +206,38 @@ theorem bq_try_fail_justified_n (c : Cfg) (g : G2Sys) (h : G2Reach c g) (t : Nat
     (hc : tryNCall (g.y.cur t) = some (sd, num)) (hp : g.y.s.pc t = .retd res) (hne : res ≠ num) :
     g.ovl t ∨ g.nr t res := tryN_short_justified h t sd num res hc hp hne
 
+/-! ### publication under weak memory (release/acquire view model, Babylon/Core/MemView.lean)
+Slot-level model `Babylon.BQ.Pub` (Babylon/BQ/PubView.lean): one slot word + its element cell; deal `t` on the slot waits (loads of
+order `ld`, any admissible — possibly stale — message; optional waiter-bit RMW), runs its callback (push = plain write of the cell,
+pop = plain read; plain accesses are relaxed accesses of the view model, so a read may return any message the thread's view admits),
+then releases version `t+1` by exchange or store of order `st`.  `Pub.Reach` = every execution of that system.  The orders are the two
+orders of `Gen.BQ.ords_deal` (`Pub.codeOrds`); the negative-control `example`s in PubView.lean show by `decide` that with a relaxed
+load or a relaxed store the consumer can read the stale cell value.  Not covered: the batch path (relaxed + fences). -/
+
+/-- the memory orders of `deal()` extracted from the source are acquire (version load / waiter CAS) and release (version
+exchange / store) -/
+theorem gen_pub_orders : Pub.codeOrds.ld.acquires = true ∧ Pub.codeOrds.st.releases = true := Pub.codeOrds_ok
+
+/-- **bq_publication (consumer sees the producer's writes).**  In every execution of the view model, a pop callback (odd deal `t`
+in its critical section) that reads the element cell can only read the LATEST message of the cell — no stale read is admissible —
+and its value is the one the producer of deal `t-1` wrote. -/
+theorem bq_publication_read (pay : Nat → Nat) (s : Pub.St) (h : Pub.Reach Pub.codeOrds pay s) (t ts : Nat)
+    (m' : Babylon.Core.MemView.Mem Pub.Loc) (v : Nat) (hpc : s.pc t = .crit) (hodd : t % 2 = 1)
+    (hr : s.m.read t .cell .rlx ts = some (m', v)) : ts + 1 = s.m.len .cell ∧ v = pay (t - 1) :=
+  Pub.pub_read_latest Pub.codeOrds pay Pub.codeOrds_ok s h t ts m' v hpc hodd hr
+
+/-- **bq_publication (exclusive access, no overwrite race).**  A callback runs with a thread view that covers the whole history of
+the cell: every earlier access of the element happens-before it. -/
+theorem bq_publication_exclusive (pay : Nat → Nat) (s : Pub.St) (h : Pub.Reach Pub.codeOrds pay s) (t : Nat) (hpc : s.pc t = .crit) :
+    ((s.m.tv t).cur).get .cell + 1 = s.m.len .cell :=
+  Pub.pub_write_latest Pub.codeOrds pay Pub.codeOrds_ok s h t hpc
+
+/-- **bq_publication (happens-before chain).**  The thread view right after the callback of deal `t-1` (push i → pop i, and
+pop i → push i+capacity on the same slot) is contained in the view with which the callback of deal `t` runs. -/
+theorem bq_publication_hb (pay : Nat → Nat) (s : Pub.St) (h : Pub.Reach Pub.codeOrds pay s) (t : Nat) (hpc : s.pc t = .crit)
+    (ht : 0 < t) : s.acc (t - 1) ≤ (s.m.tv t).cur :=
+  Pub.pub_hb Pub.codeOrds pay Pub.codeOrds_ok s h t hpc ht
+
 /-! ### non-vacuity: the hypotheses are satisfiable by concrete non-trivial states (capacity 2) -/
 /-- a reachable state in which thread 1 holds push ticket 0 (hypotheses of `bq_ticket_ge_start`, `bq_fifo`) -/
 example : ∃ y t, ReachF exCfg y ∧ (y.s.pc t).held .push 0 := ⟨ex2, 1, ex2_reach, rfl, rfl⟩
@@ -218,5 +251,18 @@ example : ReachF exCfg Sys.init ∧ Quiescent Sys.init ∧ Sys.init.s.pushIdx = 
 example : ∃ g, GReach exCfg g ∧ tryCall (g.y.cur 1) = some (.pop, true, true) ∧ g.y.s.pc 1 = .retd 0 := by
   obtain ⟨w, hw⟩ := greach_of_reach tf4_reach
   exact ⟨⟨tf4, w⟩, hw, rfl, rfl⟩
+
+/-- a reachable state of the view model in which deal 0 is in its critical section (hypotheses of `bq_publication_exclusive`) -/
+example : ∃ s, Pub.Reach Pub.codeOrds (fun _ => 7) s ∧ s.pc 0 = .crit := by
+  have h : (Pub.St.init.m.read 0 .word Pub.codeOrds.ld 0).isSome := by decide
+  obtain ⟨⟨m', v⟩, hr⟩ := Option.isSome_iff_exists.mp h
+  have hv : v = 0 := by
+    obtain ⟨msg, hm, hv, _, _⟩ := Babylon.Core.MemView.Mem.read_spec hr
+    have : msg = ⟨0, Babylon.Core.MemView.View.bot⟩ := by
+      have e : (Pub.St.init.m.hist Pub.Loc.word) = [⟨0, Babylon.Core.MemView.View.bot⟩] := rfl
+      rw [e] at hm; simp at hm; exact hm.symm
+    rw [hv, this]
+  subst hv
+  exact ⟨_, Reachable.tail (Reachable.base rfl) (Pub.Step.loadWord Pub.St.init 0 0 m' 0 rfl hr), by simp [Babylon.Core.MemView.upd]⟩
 
 end Babylon.Properties.C01
